@@ -5,7 +5,10 @@
 //   - cache.BlobMemoryCache: reserve / release / add / remove / batch remove /
 //     expire histories;
 //   - cache.LRUCache (its time.Now is rewritten to checks/c13/vtime, the clock
-//     moves only through the "adv" operation);
+//     moves only through the "adv" operation); the search merges two histories
+//     only when the real object's internal state (implstate.go) is equal too,
+//     so hidden bookkeeping (the eviction order) cannot be cut off by the
+//     deduplication;
 //   - store.CAStore.WriteBlobToCacheWithMetaInfo (write-through path) with
 //     write callbacks that deliver exactly / fewer / more bytes than the
 //     reserved size, fail midway, fail once, or reuse a name, interleaved with
@@ -262,8 +265,9 @@ func (s *mcSys) Key() string {
 // ===================================================================
 
 const (
-	lruTick = time.Second
-	lruTTL  = 2500 * time.Millisecond // never equal to an age
+	lruDepth4 = 12 // thorough: depth bound of the Size-4 search
+	lruTick   = time.Second
+	lruTTL    = 2500 * time.Millisecond // never equal to an age
 )
 
 type lEnt struct {
@@ -282,6 +286,9 @@ type lruSys struct {
 	keys  []string
 	c     *cache.LRUCache
 	order []lEnt // model: least recently added/refreshed first
+	// modelKeyOnly: deduplicate on the model-level key (see Key); only for the
+	// deep thorough-tier search of Size 4 that existed before the key was refined
+	modelKeyOnly bool
 }
 
 func newLRU(size int) *lruSys {
@@ -441,8 +448,37 @@ func (s *lruSys) Key() string {
 			b.WriteString(k)
 		}
 	}
-	return b.String()
+	modelKey := b.String()
+	// The complete internal state of the real object (implstate.go) is part of
+	// the key: a history is merged with an earlier one only when the real cache
+	// itself is in the same state, whatever the model and the public API show.
+	// Without it, "add a, del a" was merged with the empty history and "add a,
+	// add b, del a, add a" with "add b, add a", so no history in which a key is
+	// added again after a Delete / Clear / expiry was ever extended: bookkeeping
+	// left behind by those operations could not reach an eviction.
+	full := modelKey + "|impl:" + implState(s.c, now, lruTTL)
+	lruKeyMu.Lock()
+	lruModelKeys[s.label+modelKey] = true
+	lruFullKeys[s.label+full] = true
+	lruKeyMu.Unlock()
+	if lruModelKeyOnly || s.modelKeyOnly {
+		return modelKey
+	}
+	return full
 }
+
+// vacuity / refinement counters: distinct model-level keys vs distinct keys
+// including the implementation state, over everything the LRU searches visited.
+var (
+	// development knob: deduplicate on the model-level key only (the search as it
+	// was before the implementation state became part of the key), to measure
+	// what that merging hides
+	lruModelKeyOnly = os.Getenv("C13_LRU_MODEL_KEY_ONLY") != ""
+
+	lruKeyMu     sync.Mutex
+	lruModelKeys = map[string]bool{}
+	lruFullKeys  = map[string]bool{}
+)
 
 // ===================================================================
 // CAStore fixture (E3-c and E1)
@@ -1076,7 +1112,8 @@ func main() {
 	run = evid.New("C13", "model_checking")
 	run.Rule = "E3: every operation history up to depth d (BFS, deduplicated on model state + everything the public API shows) over " +
 		"(a) BlobMemoryCache {TryReserve 0..3|2^64-1, ReleaseReservation, Add a|b of 0..3 bytes, Remove, RemoveBatch, advance, GetExpiredEntries+RemoveBatch}, MaxSize 2|3; " +
-		"(b) LRUCache {Add, Delete, Clear, advance clock} with Has/Size probed after every step, Size 1..3; " +
+		"(b) LRUCache {Add, Delete, Clear, advance clock} over Size+1 keys with Has/Size probed after every step, Size 1..3 (thorough: 4); two histories are merged only when the REAL cache's complete internal state " +
+		"(every field, read by reflection, expiry times relative to the clock) is equal as well, so histories that add a key again after Delete / Clear / expiry are extended to the evictions that follow them; searched to the fixpoint for Size 1..3 (all histories of any length), depth 12 for Size 4; " +
 		"(c) CAStore.WriteBlobToCacheWithMetaInfo {2 blobs x callback exact|fewer|more|fewerBogus|moreBogus|failmid|failonce, drain step, advance clock, TTL sweep}; " +
 		"each step executed on the real object and compared with the accounting / recency model. " +
 		"E1: every interleaving (preemption-bounded DFS at lock operations) of concurrent BlobMemoryCache callers (porcupine linearizability vs the same model) and of 2-3 CAStore writers + drain thread + TTL thread + snapshot observer. " +
@@ -1085,6 +1122,7 @@ func main() {
 	run.Assume("code between two lock operations is data-race free; interleavings are explored at lock operations only (SC)")
 	run.Assume("instrumentation by go build -overlay (sync -> vsync/vsyncq, time -> checks/c13/vtime in utils/cache, added export files) preserves semantics")
 	run.Assume("expiry ages never equal the TTL exactly (the text does not decide the boundary)")
+	run.Assume("LRU state key: the behaviour of the real LRUCache is a function of its fields (rendered by implstate.go; time values older than now-TTL are rendered alike) and the clock")
 	run.Assume("CAStore harnesses: Unlock operations are not preemption points (Lock/RLock operations and the download step are)")
 	run.Assume("CAStore drain / TTL workers are replaced by explicit calls of their step functions (drainNext, cleanupMemoryCacheExpiredEntries)")
 
@@ -1122,17 +1160,34 @@ func main() {
 
 	lap("E3 memcache")
 	// ---- E3-b (global vtime clock: one worker)
-	lruDepth, lruCap := 16, 15
+	// The key contains the real cache's internal state, so on the unchanged
+	// tree sizes 1..3 reach a fixpoint (depth 8 / 16 / 18): every history of any
+	// length over the alphabet is covered. Size 4 (thorough) is depth-bounded.
+	lruCap := 20
+	lruDepths := map[int]int{1: 20, 2: 20, 3: 20}
 	lruSizes := []int{1, 2, 3}
 	if th {
-		lruDepth, lruCap = 20, 60
+		lruCap = 150
+		lruDepths = map[int]int{1: 24, 2: 24, 3: 24, 4: lruDepth4}
 		lruSizes = []int{1, 2, 3, 4}
 	}
 	for _, size := range lruSizes {
 		size := size
-		name := fmt.Sprintf("lru size=%d depth=%d", size, lruDepth)
-		search(name, bfs.Config{MaxDepth: lruDepth, Workers: 1, Deadline: dl(lruCap), New: func() (bfs.System, error) { return newLRU(size), nil }})
+		name := fmt.Sprintf("lru size=%d depth=%d", size, lruDepths[size])
+		search(name, bfs.Config{MaxDepth: lruDepths[size], Workers: 1, Deadline: dl(lruCap), New: func() (bfs.System, error) { return newLRU(size), nil }})
 	}
+	if th {
+		// the pre-refinement search of Size 4 is kept as it was (deeper, merged on the model-level key)
+		search("lru size=4 depth=20 model-level key", bfs.Config{MaxDepth: 20, Workers: 1, Deadline: dl(60), New: func() (bfs.System, error) {
+			s := newLRU(4)
+			s.modelKeyOnly = true
+			return s, nil
+		}})
+	}
+	lruKeyMu.Lock()
+	run.Set("lru_distinct_model_level_keys", len(lruModelKeys))
+	run.Set("lru_distinct_keys_with_implementation_state", len(lruFullKeys))
+	lruKeyMu.Unlock()
 
 	lap("E3 lru")
 	// ---- E3-c
